@@ -432,6 +432,21 @@ fn observe(w: &mut World, m: &mut Model, out: &mut Outcome, prev_real: &mut Opti
 }
 
 
+/// Whether a commit has something to write is an INPUT of the lock protocol (it depends on index and
+/// TOC state the lock model does not have: a fresh create, a reopened empty memory or a vacuum leave
+/// work behind without any put).  When the implementation's commit/vacuum/drop replaced the file
+/// although the model's handle is clean, the model's handle is marked dirty first; the converse (model
+/// dirty after a put, file not replaced) is left to show up as a disagreement.
+fn sync_work(m: &mut Model, out: &mut Outcome, id: usize, before: Option<u64>, after: Option<u64>) {
+    if before.is_some() && after != before {
+        let o = m.ask(&format!("obs {id}")).unwrap_or_default();
+        if o.contains("dirty=0") {
+            m.ask(&format!("put {id}"));
+            out.trace.push(format!("  model handle {id}: the commit had internal work (index/TOC) without a put: marked dirty"));
+        }
+    }
+}
+
 fn model_op(m: &mut Model, out: &mut Outcome, line: &str, real: &str, label: &str) {
     if let Some(ans) = m.ask(line) {
         out.trace.push(format!("  model {line} -> {ans}"));
@@ -478,6 +493,7 @@ fn run_hist(ops: &[String], m: &mut Model, w: &mut World) -> Outcome {
                 }
                 out.trace.push(format!("impl  A {op} -> {r}"));
                 if m.drv.is_some() {
+                    sync_work(m, &mut out, 0, before, stat_ino(&w.path));
                     let a = m.ask(&format!("{op} 0")).unwrap();
                     out.trace.push(format!("  model {op} 0 -> {a}"));
                 }
@@ -619,12 +635,16 @@ fn run_two(ops: &[String], m: &mut Model, w: &mut World) -> Outcome {
                 }
             }
             "commit" | "vacuum" | "drop" => {
+                let before = stat_ino(&w.path);
                 let r = act.ask(op);
                 out.trace.push(format!("impl  {who} {op} -> {r}"));
                 if r == "ok" {
                     dirty[id] = false;
                 }
-                m.ask(&format!("{op} {id}"));
+                if m.drv.is_some() {
+                    sync_work(m, &mut out, id, before, stat_ino(&w.path));
+                    m.ask(&format!("{op} {id}"));
+                }
             }
             _ => {}
         }
@@ -745,7 +765,17 @@ fn slow_check(sr: SlowReal, m: &mut Model) -> Outcome {
                 out.trace.push(format!("  model B after first attempt: {mid}"));
                 out.trace.push(format!("  model B after A's commit + retry: {granted}"));
                 out.trace.push(format!("  model B after identity check: {after}"));
-                if after == "none" { m.ask(&format!("open 1 {MP}")).unwrap() } else { "ok".into() }
+                if after.contains("phase=live") {
+                    "ok".into()
+                } else if after == "none" {
+                    // identity check failed: the opener reopens the path and is refused
+                    m.ask(&format!("open 1 {MP}")).unwrap()
+                } else {
+                    // still refused on the descriptor it holds: every further attempt is refused too
+                    // (the first handle keeps that lock), the opener gives up
+                    m.ask("kill 1");
+                    "fail".into()
+                }
             }
         };
         out.trace.push(format!("  model second writer -> {ans}"));
